@@ -244,3 +244,9 @@ n('entries-copy-via-local', 'src/treespec/treespec.cpp', [
             const py::object keys = TupleGetItem(root.node_data, 1);
             return py::getattr(keys, Py_Get_ID(copy))();
         }""")])
+
+
+# generated: all locals of all Python functions renamed (225 names); verified behaviour-preserving
+# by running tests/test_ops.py, tests/integration, test_dataclasses/functools/registry/
+# prefix_errors/accessor/typing/utils on the renamed tree (59303 passed)
+N.append({'id': 'py-rename-all-locals', 'generator': 'rename-python-locals', 'file': None, 'edits': []})
